@@ -88,11 +88,18 @@ def main():
                     entry["checks"].setdefault(c, []).append(r)
             own = entry["checks"][prop]
             entry["caught"] = any(r["exit"] == 1 for r in own)
+            entry["inconclusive"] = any(r["exit"] == 2 for r in own)
+            entry["control"] = bool(meta.get("control"))
             entry["caught_by"] = sorted(c for c, rs in entry["checks"].items() if any(r["exit"] == 1 for r in rs))
             results[sid] = entry
-            print(sid, prop, "CAUGHT" if entry["caught"] else "MISSED", entry.get("tests", ""),
-                  own[0]["keys"][:3], "by:", entry["caught_by"])
-            if not entry["caught"]:
+            if entry["control"]:
+                verdict = "CONTROL-SILENT (expected)" if not entry["caught"] else "CONTROL-FIRED (false alarm?)"
+                bad = entry["caught"]
+            else:
+                verdict = "CAUGHT" if entry["caught"] else ("INCONCLUSIVE" if entry["inconclusive"] else "MISSED")
+                bad = not entry["caught"]
+            print(sid, prop, verdict, entry.get("tests", ""), own[0]["keys"][:3], "by:", entry["caught_by"])
+            if bad:
                 failed += 1
         finally:
             subprocess.run(["git", "-C", REPO, "worktree", "remove", "--force", copy], capture_output=True)
